@@ -81,7 +81,7 @@ def run_scenario(run, e4, sc):
     info = {}
     wc = sc["class"]
     gens = sc["configs"]            # [(workers, gen)] - first is the initial configuration
-    settings = {"graceful_timeout": 10, "timeout": 30, "raw_env": ["GEN=%d" % gens[0][1]]}
+    settings = {"graceful_timeout": 10, "timeout": sc.get("timeout", 30), "raw_env": ["GEN=%d" % gens[0][1]]}
     if wc == "gthread":
         settings["threads"] = 4
     srv = e4.Server("c10", worker_class=wc, workers=gens[0][0], settings=settings, bind=sc["bind"])
@@ -102,6 +102,19 @@ def run_scenario(run, e4, sc):
             t = threading.Thread(target=client_loop, args=(e4, srv, stop, log, sc["seed"], i), daemon=True)
             t.start()
             threads.append(t)
+        # pool changes by signal before the reload: the reload must still end with the *configured* number
+        for sig in sc.get("pre_signals", []):
+            srv.signal(getattr(signal, "SIG" + sig))
+            time.sleep(0.4)
+        longres = {}
+        if sc.get("long_request"):
+            # a request longer than the worker timeout (legitimate for the concurrent worker classes) in flight at the HUP
+            def long_req():
+                longres["r"] = e4.request(srv.addr, "/sleep/%s" % sc["long_request"], timeout=sc["long_request"] + 15)
+            lt = threading.Thread(target=long_req, daemon=True)
+            lt.start()
+            threads.append(lt)
+            time.sleep(0.3)
         t_hups = []
         for (delay, (nw, gen)) in zip(sc["hup_delays"], gens[1:]):
             time.sleep(delay)
@@ -110,7 +123,7 @@ def run_scenario(run, e4, sc):
             t_hups.append(time.monotonic())
             srv.signal(signal.SIGHUP)
         final_workers, final_gen = gens[-1]
-        time.sleep(3.0 + 1.3)
+        time.sleep(3.0 + 1.3 + (sc.get("long_request") or 0))
         stop.set()
         for t in threads:
             t.join(20)
@@ -150,6 +163,14 @@ def run_scenario(run, e4, sc):
                 if len(dropped) > max(3, 0.02 * len(log)):
                     return v, "too many (%d of %d) connections closed with zero bytes on %s to call it the accepted-but-unread case" % (
                         len(dropped), len(log), wc), info
+        if sc.get("long_request"):
+            r = longres.get("r")
+            if not r or r["outcome"] != "ok" or not e4.body_of(r["data"]).endswith(b"|END"):
+                v.append(("long-request-cut-by-reload", "a %s s request in flight at the HUP on %s (worker timeout %s, graceful_timeout 10) "
+                          "-> %s %r; WORKER TIMEOUT in log: %s" % (sc["long_request"], wc, sc.get("timeout"), r and r["outcome"],
+                                                                 r and r["data"][:60], "WORKER TIMEOUT" in srv.error_log())))
+            else:
+                run.count("long_request_across_reload_checks")
         bad = [r for r in log if r["outcome"] == "ok" and (e4.status_of(r["data"]) != 200 or not e4.body_of(r["data"]).endswith(b"|END"))]
         if bad:
             v.append(("malformed-response-during-reload", "%r" % bad[0]["data"][:120]))
@@ -228,6 +249,16 @@ def scenarios(tier, seed):
                 delays = [rng.choice([0.6, 1.0]), rng.choice([0.7, 1.5])]
             out.append({"class": wc, "configs": configs, "hup_delays": delays, "clients": 8, "bind": rng.choice(["tcp", "unix"]),
                         "kind": kind})
+        # TTIN / TTOU before a reload whose configuration keeps the same worker count
+        for wc in ([classes[(seed + rep) % 4], classes[(seed + rep + 2) % 4]] if tier == "quick" else classes):
+            w0 = rng.randint(1, 2)
+            pre = rng.choice([["TTIN"], ["TTIN", "TTIN"], ["TTIN", "TTOU", "TTIN"]])
+            out.append({"class": wc, "configs": [(w0, 1), (w0, 2)], "hup_delays": [0.5], "clients": 6, "bind": "tcp",
+                        "kind": "ttin-then-hup", "pre_signals": pre})
+        # a request longer than the worker timeout in flight at the reload (concurrent worker classes only)
+        for wc in ("gthread", "gevent", "eventlet"):
+            out.append({"class": wc, "configs": [(2, 1), (2, 2)], "hup_delays": [0.3], "clients": 4, "bind": "tcp",
+                        "kind": "long-request", "timeout": 2, "long_request": 5})
         if tier == "quick":
             # every class also sees the other timing shapes over the seeds; one extra sync scenario with 3 HUPs
             out.append({"class": "sync", "configs": [(2, 1), (3, 2), (1, 3), (2, 4)], "hup_delays": [0.7, 0.05, 0.9], "clients": 8,
@@ -248,7 +279,7 @@ def shard(sh):
         if reason is None or v:
             break
         run.count("retries_after_inconclusive")
-    run.case(json.dumps({k: sc[k] for k in ("class", "configs", "hup_delays", "bind")}, sort_keys=True),
+    run.case(json.dumps({k: sc.get(k) for k in ("class", "configs", "hup_delays", "bind", "kind", "pre_signals")}, sort_keys=True),
              nontrivial=info.get("overlapping_a_hup", 0) > 0)
     run.count("scenarios")
     run.count("class/" + sc["class"])
@@ -264,7 +295,8 @@ def shard(sh):
 def main(tier, seed):
     run = Run(PROP, tier, seed, "exploration", RULE)
     run.require("scenarios", "requests", "requests_overlapping_hup", "listener_inode_unchanged_checks", "all_workers_new_checks",
-                "new_generation_served_checks", "class/sync", "class/gthread", "class/gevent", "class/eventlet", "kind/double-fast")
+                "new_generation_served_checks", "class/sync", "class/gthread", "class/gevent", "class/eventlet", "kind/double-fast",
+                "kind/ttin-then-hup", "long_request_across_reload_checks")
     shards = [{"scenario": sc, "seed": seed, "tier": tier} for sc in scenarios(tier, seed)]
     run.assumptions = [
         "for non-sync workers a connection closed with zero response bytes is the accepted-but-not-yet-read case the statement does not cover: "
